@@ -3,6 +3,8 @@ import CoreBGP.Props.C02
 import CoreBGP.Props.C02b
 import CoreBGP.Props.C03
 import CoreBGP.Props.C04
+import CoreBGP.Props.C04L2
+import CoreBGP.Props.C04Tie
 import CoreBGP.Props.C05
 import CoreBGP.Props.C06
 import CoreBGP.Props.C07
@@ -11,6 +13,7 @@ import CoreBGP.Props.C09
 import CoreBGP.Props.C10
 import CoreBGP.Props.C10Own
 import CoreBGP.Props.C11
+import CoreBGP.Props.C11T
 import CoreBGP.Props.C12
 import CoreBGP.Props.C12L2
 import CoreBGP.Props.C13
